@@ -399,9 +399,9 @@ Fixpoint undo_keys (live : bool) (done : list (list byte)) (X : list krec) : lis
     if c =? 0 then let '(X2, t2, ok) := undo_keys live rest X' in (X2, t ++ t2, ok) else (X, [], false)
   end.
 
-(* does spki_table_src_remove report the removed keys to the update callback?  (C10: the code at the
-   pinned commit does not; flip when /repo is repaired - the correspondence run tells) *)
-Definition spki_src_remove_notifies : bool := false.
+(* does spki_table_src_remove report the removed keys to the update callback?  (C10: it does since fix 4808153;
+   the correspondence run tells if that changes) *)
+Definition spki_src_remove_notifies : bool := true.
 
 (* removal of a source's records from the main tables, with callbacks *)
 Definition src_remove_all : world -> res unit :=
